@@ -16,11 +16,17 @@ THEOREMS = [
     'SF.C05.leaf_open_slice_bounded',
     'SF.C05.hloc_fuel', 'SF.C05.hloc_exact_partial', 'SF.C05.hloc_full_tuple',
     'SF.C05.hloc_exact_slices', 'SF.C05.hloc_slices_answer', 'SF.C05.clean_of_no_endpoints',
+    'SF.C05.hloc_exact_stepped', 'SF.C05.hloc_exact_mask', 'SF.C05.hloc_stepped_answer', 'SF.C05.stepped_node_order',
+    'SF.C05.stepped_node_selects', 'SF.C05.mask_matches_by_position', 'SF.C05.stepped_empty_leaf_counterexample',
 ]
-PARTIAL = ['SF.C05.hloc_exact_partial: label / all / list selectors (any mix, any depth); extended by SF.C05.hloc_exact_slices to label slices '
-           'with step None or 1 at any depth (a slice matches by POSITION in the label order of the node the tuple lives under; a visited node that '
-           'lacks an endpoint makes the whole selection an error, never data - predicate Level.clean). Still missing: slices with another step '
-           '(negative, > 1) and the innermost Boolean mask, which are covered by the model-vs-code comparison and the list-of-tuples oracle']
+PARTIAL = ['SF.C05.hloc_exact_partial: label / all / list selectors; extended by hloc_exact_slices (label slices, step None / 1), hloc_exact_stepped '
+           '(label slices with ANY non-zero step, positive or negative, at any depth: a slice matches by position in the label order of its node, '
+           'a descending slice delivers the matches of its node in descending order, the result is a permutation of the matching positions and is in '
+           'index order when no list selector and no negative step is present; a visited node lacking an endpoint is an error, never data) and '
+           'hloc_exact_mask (a Boolean mask at the innermost depth filters the outer selection by global position). Restrictions that remain: '
+           'step 0 (ValueError, by example), a negative step needs every leaf non-empty (stepped_empty_leaf_counterexample shows why: an empty '
+           'leaf at offset 0 makes the open descending bound -1 read from the end - such a tree cannot be built from labels), a mask at an outer '
+           'depth (outside the claim of the property), list selectors without repeated labels']
 CORR_ONLY = [
     'aliasing of tree nodes (IndexHierarchyGO.from_product builds ONE ArrayGO of targets shared by all sibling nodes of a depth; '
     'IndexHierarchy.__init__ un-shares it by copying the levels): the Lean Level is a value tree without object identity, so sharing is '
